@@ -122,7 +122,35 @@ def check(tier, seed):
                 viol += 1
                 rep.violation("c15_compile_det_%d" % ndet, "# compiling the same source gives a different result after other compilations in the same process\n# alone: %s\n# after %r: %s\n# stderr: %s\n%s" % (bkey[0][:3], pre, key[0][:3], r["err"][-300:].replace("\n", " "), t), True)
             h.cleanup(r)
+    # (3) the diagnostics of a failing compile belong to THAT compile: a file that cannot be opened, a syntax error, a type error —
+    # alone, after a longer program that is still alive, and after one that was deleted: same lines (same line numbers), all of them
+    # in the failing program's own message array, none added to an earlier program's, no access to a deleted one (ASan)
+    LONG = "".join("func a%d() -> int { %d }\n" % (i, i) for i in range(8)) + "func main() -> int { a0() }\n"
+    fails = [dict(file="/nonexistent_dir_verif/missing.nev"), dict(src="func main( -> int { 1 }"), dict(src="\n\nfunc main() -> int { nosuch + 1 }")]
+    nown = 0
+    for tgt in fails:
+        base = h.run(trace=False, calls="main:1", **tgt)
+        bkey = tuple(l for l in base["lines"] if l.startswith(("compile", "msg")))
+        h.cleanup(base)
+        if not any(l.startswith("msg ") for l in bkey) and viol < 3:
+            viol += 1
+            rep.violation("c15_diag_not_recorded_%d" % nown, "# a failing compile left no diagnostic in its own program's message array\n# target %r\n# result lines %r\n# stderr %s" % (tgt, bkey, base["err"][-300:]), True)
+        for pre in ([LONG], ["@del:" + LONG], ["@del:" + LONG, "func main() -> int { 2 }"], ["@file:/nonexistent_dir_verif/other.nev", LONG]):
+            r = h.run(trace=False, calls="main:1", pre=pre, **tgt)
+            io = vm_corr.impl_outcome(r)
+            key = tuple(l for l in r["lines"] if l.startswith(("compile", "msg")))
+            prec = {l.split()[1]: l.split()[3] for l in r["lines"] if l.startswith("precompile ")}
+            post = {l.split()[1]: "msgs=" + l.split()[2] for l in r["lines"] if l.startswith("premsgs ")}
+            grew = [k for k in post if prec.get(k) != post[k]]
+            nown += 1
+            crashed = io["kind"].startswith(("sanitizer", "signal", "assert", "crash"))
+            if (key != bkey or grew or crashed) and viol < 3:
+                viol += 1
+                rep.violation("c15_diag_owner_%d" % nown, "# the diagnostics of a failing compile depend on / leak into earlier compilations\n# target %r after %r\n# alone: %r\n# now:   %r\n# earlier programs whose message count changed: %s\n# outcome %s\n# stderr: %s"
+                              % (tgt, [p[:40] for p in pre], bkey, key, grew, io["kind"], r["err"][-600:].replace("\n", "\n# ")), True)
+            h.cleanup(r)
     h.close()
+    stats["diagnostic_owner_cases"] = nown
     rep.cov.update(trusted_base=["Lean 4.33 kernel", "axioms: propext, Classical.choice, Quot.sound", "h_vm.c (call lists, pre-compiles) + comparator", "gcc/ASan"],
                    evaluations=nhist + ndet, distinct_nontrivial=nhist,
                    rule="seeded histories of 2..8 nev_prepare/nev_execute calls over 8 entry points (incl. a failing first call) on one VM, replayed in lockstep on the Lean VM; entry addresses checked against the function table; each target source compiled alone and after 1..3 other (valid and invalid) compilations kept alive, code dump and diagnostics compared",
